@@ -152,6 +152,10 @@ var d6Fixed = []string{
 	"whole line", "whole word", "whole file", "not whole line", "whole line '\\n' whole line", "(whole word) = w ' ' w",
 	"(at least 1 any fewest) = x '\\n' x", "file start any", "any file end", "not line start any", "in 'a', ' ' to '!'", "caseless 'A' not in 'a'",
 	"{'a' maybe s '\\n'} = s", "({any} = one) one",
+	// nested named loops with a choice point inside the open inner loop and an optional capture in the outer body
+	"at least 1 ((at least 1 'a' fewest named cells) maybe (('a' ' ' any) = tag 'Q') ' ') named rows",
+	"at least 1 ((at least 1 (any = c) fewest named cells) maybe (('a' any) = tag '\\n') ' ') named rows",
+	"at least 1 (at least 1 (('a' = x ' ') or 'a') named in ' ') named out",
 	// literals of more than one byte per character: offsets and columns count bytes
 	"'\xc3\xa9'", "'\xc3\xa9' any", "'a\xc3\xa9' maybe ' '", "caseless '\xc3\xa9A'", "not '\xc3\xa9a' any", "in '\xc3\xa9', 'a'", "('\xe2\x82\xac' = e) ' ' e",
 }
